@@ -34,14 +34,34 @@ func genC16(t *testing.T, tr *vhlib.Trace, r *vhlib.Rand, n int) {
 	w.reset(tr)
 	// fund the wallet: payouts to the host, then let some mature
 	w.doMine(tr, 2+r.Intn(4), "host", true)
+	w.doMine(tr, 1+r.Intn(2), "funder", true) // a third party that will pay the wallet
 	w.doMine(tr, 3+r.Intn(5), vhlib.Pick(r, "void", "host"), true)
 	reorgs := 0
 	for i := 0; i < n && !w.dead; i++ {
 		switch x := r.Intn(100); {
 		case x < 30:
 			w.doMine(tr, 1+r.Intn(3), vhlib.Pick(r, "host", "void", "void"), r.Chance(4, 5))
+		case x < 37:
+			w.doSend(tr, uint64(1+r.Intn(400)), vhlib.Pick(r, "void", "self"), r.Chance(1, 3))
 		case x < 43:
-			w.doSend(tr, uint64(1+r.Intn(400)), vhlib.Pick(r, "void", "self"))
+			// same-block receive-then-spend: alone in its block or mixed with payouts / other payments, then
+			// (mostly) exactly that block is disconnected, shallow or deeper, with or without re-mining on the fork
+			w.doEphem(tr, r.Chance(1, 3))
+			if r.Chance(1, 3) {
+				w.doSend(tr, uint64(1+r.Intn(50)), "void", false)
+			}
+			w.doMine(tr, 1, vhlib.Pick(r, "void", "void", "host"), true)
+			if r.Chance(3, 4) && reorgs < 5 {
+				reorgs++
+				depth := vhlib.Pick(r, 1, 1, 1, 2, 3)
+				if r.Chance(1, 3) {
+					w.doMine(tr, 1, "void", true)
+				}
+				w.doReorg(tr, depth, depth+1+r.Intn(2), vhlib.Pick(r, "host", "void", "void"), r.Chance(1, 2))
+				if r.Chance(1, 2) {
+					w.doMine(tr, 1, "void", true) // re-mines what returned to the pool
+				}
+			}
 		case x < 45:
 			w.doSpendMat(tr)
 		case x < 55:
@@ -145,7 +165,9 @@ func replay(t *testing.T, tr *vhlib.Trace, ops []vhlib.ParsedLine) {
 		case "reorg":
 			w.doReorg(tr, op.Int("depth"), op.Int("len"), op.Args["to"], op.Int("carry") == 1)
 		case "send":
-			w.doSend(tr, op.U64("amt"), op.Args["to"])
+			w.doSend(tr, op.U64("amt"), op.Args["to"], op.Int("unconf") == 1)
+		case "ephem":
+			w.doEphem(tr, op.Int("change") == 1)
 		case "spendmat":
 			w.doSpendMat(tr)
 		case "announce":
